@@ -6,7 +6,7 @@
 //!     real `format_program` on the one-alias program vs the model's `fmtAlias`; real `parse` on that
 //!     text vs the model's `programVerdict`; for ASTs the model calls well-formed (`WFType`, the
 //!     hypothesis of the round-trip theorem) the statement of the theorem is evaluated on the real
-//!     code: the re-read AST is `normalize` of the original.
+//!     code: the re-read AST is the original.
 //! (b) malformed stream: one or two token-level edits of a printed alias (delete / duplicate / swap /
 //!     substitute / insert a token, unbalanced bracket, stray `|`, `->` without result, comments and
 //!     line breaks inside the type, truncation), with or without a sentinel behind it: the real
@@ -488,16 +488,28 @@ fn check_alias(ev: &mut Ev, model: &mut Model, stream: &str, a: &AliasAst) -> Op
     let wf = model.ask(&format!("wf-alias {sx}")) == "1";
     ev.hit(if wf { "types:ast-wellformed" } else { "types:ast-illformed" });
     if wf {
-        let want = model.ask(&format!("norm-alias {sx}"));
-        if want != sx {
-            ev.hit("types:roundtrip-normalizes");
-        }
+        let want = sx.clone();
         let ok = matches!(&imp, Impl::Ok { first_alias: Some(x), statements: 1 } if *x == want);
         if ok {
             ev.hit("types:roundtrip-holds");
         } else {
+            // explained by the known shape? (an argument-less reference named like a primitive is
+            // printed `<'int>`, which `function_input_type`/`function_output_type` do not accept)
+            let mut in_fn_position = false;
+            walk_ty(&a.ty, 0, &mut |t, _| {
+                if let Type::Function(f) = t {
+                    for side in [&*f.input, &*f.output] {
+                        if let Type::Identifier { name, arguments } = side {
+                            if arguments.is_empty() && matches!(name.as_str(), "int" | "bin" | "ref") {
+                                in_fn_position = true;
+                            }
+                        }
+                    }
+                }
+            });
+            let cause = if in_fn_position { "primitive-named-reference-in-function-position" } else { "unexplained" };
             ev.violation(
-                "types kind=roundtrip-fails-on-wellformed",
+                &format!("types kind=roundtrip-fails cause={cause}"),
                 &format!("the printed form {text:?} of the well-formed alias {sx} is re-read as {imp:?} (expected {want}) (stream {stream})"),
                 json!({"broken": "C18Types.roundtrip evaluated on the implementation (format_program then parse)", "alias": sx, "text": text, "impl": format!("{imp:?}"), "expected": want, "stream": stream}),
                 false,
@@ -653,12 +665,18 @@ pub fn part_types(ev: &mut Ev, model: &mut Model, opts: &Opts) {
     let t0 = std::time::Instant::now();
 
     // fixed regression inputs (kept in the source: they are part of the check)
-    for src in ["'t = <'int>", "'t = Foo[]\n(x) = y", "'t = ((((('int)))))", "'t = (@-> 'a)", "'t = 'a[...]", "' = ^18446744073709551616", "'t<'a, 'b> =\n  | A[x: 'a]\n  | B(y: #'a -> 'b) // c\n  | ^1 & 'u", "'t = ( 'int // c\n)", "'t = (x: 'int // c\n)", "'t = Foo ('int)", "'t = [f: #@ -> @, '%a/b.c<'>]"] {
+    for src in ["'box<'int> = Box[<'int>]\nf = #'box<'bin> { $ }\n#{ Box[0xff] ~> f }", "'t = Foo[]\n(x) = A[x: 1]\nx", "'t = #(<'int>) -> (<'bin>)", "'t = <'int>", "'t = Foo[]\n(x) = y", "'t = ((((('int)))))", "'t = (@-> 'a)", "'t = 'a[...]", "' = ^18446744073709551616", "'t<'a, 'b> =\n  | A[x: 'a]\n  | B(y: #'a -> 'b) // c\n  | ^1 & 'u", "'t = ( 'int // c\n)", "'t = (x: 'int // c\n)", "'t = Foo ('int)", "'t = [f: #@ -> @, '%a/b.c<'>]"] {
         ev.case(src, true);
         ev.hit("types:stream:fixed");
         let imp = check_text(ev, model, "fixed", src);
         if let Impl::Ok { first_alias: Some(_), .. } = imp {
             texts.push(src.to_string());
+            // and the round trip of what was read
+            if let Ok(Ok(prog)) = catch(|| quiver_compiler::parse(src)) {
+                if let Some(a) = prog.statements.first().and_then(alias_of_statement) {
+                    check_alias(ev, model, "fixed", &a);
+                }
+            }
         }
     }
 
@@ -714,9 +732,8 @@ pub fn part_types(ev: &mut Ev, model: &mut Model, opts: &Opts) {
             if let Statement::TypeAlias { name_span, type_definition, .. } = st {
                 found.push(type_definition.clone());
                 if let Some(sp) = name_span.get() {
-                    // the alias and some of what follows it (the driver's request decoding is
-                    // quadratic in the line length, so the text is cut; both sides see the same text)
-                    let mut end = (sp.offset + 1200).min(src.len());
+                    // the alias and some of what follows it (both sides see the same text)
+                    let mut end = (sp.offset + 6000).min(src.len());
                     while !src.is_char_boundary(end) {
                         end -= 1;
                     }
